@@ -501,7 +501,8 @@ pub fn seconds(dt: &XsdDateTime) -> EvalResult {
 pub fn triple(s: &EvalResult, p: &EvalResult, o: &EvalResult) -> Option<EvalResult> {
     let EvalResult::Term(s) = s else { return None };
     let EvalResult::Term(p) = p else { return None };
-    if !s.is_iri() && !s.is_blank_node() {
+    // NB: in RDF-star, the subject of a triple may itself be a quoted triple
+    if !s.is_iri() && !s.is_blank_node() && !s.is_triple() {
         return None;
     }
     if !p.is_iri() {
